@@ -37,7 +37,10 @@ def transformations(ctx: Ctx, e):
     """(kind, transformed tree)"""
     rng = ctx.rng
     used = {l[1] for l in T.leaves(e)}
-    hint = next(k for k in ["777", "555", "600"] if k not in used)
+    # a fresh hint key; the boundaries of the hint range (500, 900) first, so that they are used whenever the expression does not contain them yet
+    cands = ["900", "500", "777", "555", "600"]
+    ctx.rng.shuffle(cands)
+    hint = next(k for k in cands if k not in used)
     fcs = [k for k in ["950", "951"] if k not in used]
     out = []
     for path, s, parent in positions(e):
@@ -63,7 +66,7 @@ def outcome(i):
 
 
 def run(ctx: Ctx) -> None:
-    ctx.rule = ("valid well-formed trees (all with <=3 leaves over {1,2,501,901} + random up to 6/8 leaves); every transformation at every admissible "
+    ctx.rule = ("valid well-formed trees (all with <=3 leaves over {1,2,900,901} + random up to 6/8 leaves); every transformation at every admissible "
                 "position; all 3^m assignments (m<=3/4) and all refinements of their UNKNOWN entries; bracket variants through the real parser; swaps / brackets also with 2-3 requirement keys abbreviated by packages, through resolve + evaluate; "
                 "distinct = (tree, transformation, position)")
     ctx.coverage["generated_changed"] = extract.regenerate(["Cfv"])
